@@ -251,4 +251,38 @@ PROPS = {
         assumptions=COMMON_ASSUMPTIONS + ["hooks in actix-server (--cfg actix_net_verif) only add event emission, failpoint sleeps between critical sections and probes; the log mutex adds synchronisation the production build does not have (TSan layers therefore run without it)",
                                           "Linux loopback TCP and Unix-domain sockets; epoll semantics as implemented by mio 1.0"],
     ),
+    "C01": dict(
+        level="exploration",
+        technique="runtime monitoring: exactly-once / routing / conservation checker over the ordered history {client connect, accept, dispatch, service call, identified, end, close} of a real multi-listener server under concurrent clients, pause/resume and stop; fd-conservation monitor",
+        level_text="Every harness connection carries a unique id that the service reads back, so the log identifies which call served which connect. A real server with 1..3 workers and 1..2 listeners (TCP, UDS, mixed) is stressed by 2..8 client threads (hold, finish, abort), optionally paused and resumed, brought to a barrier-reached quiescent point, then stopped with connections still queued. Oracles: each id identified at most once and by an instance of its own listener's service; accepted = dispatched (+ dropped-no-workers, which must be 0); no open client is closed unserved while the server runs; unserved clients are explained by backlog and capacity; after shutdown every socket is closed, nothing is served after a graceful stop resolved, and the process's open-fd count is back to its starting value.",
+        level_note="No faults are injected (C08 owns them). Clients that abort before being accepted are legitimately seen by the service as anonymous, immediately ended calls.",
+        design_ref="§5 C01",
+        engine="vh-server",
+        layers={
+            "quick": [L("hooks", "vh-server", "hooks", shards=12, extra={"n": 240}, timeout=900)],
+            "thorough": [L("hooks", "vh-server", "hooks", tier="thorough", shards=16, extra={"n": 6000}, timeout=3000)],
+        },
+        obligations=["obs_connections", "obs_served", "obs_unserved_closed_at_shutdown", "obs_queued_when_stop_issued", "obs_routing_checks",
+                     "obs_quiescent_points", "obs_fd_conservation_checks", "obs_multi_listener_scenarios", "obs_aborted_by_client",
+                     "obs_failpoint_delays_fired", "obs_pause_resume_cycles"],
+        assumptions=COMMON_ASSUMPTIONS + ["hooks in actix-server (--cfg actix_net_verif) only add event emission, failpoint sleeps between critical sections and probes; the log mutex adds synchronisation the production build does not have (TSan layers therefore run without it)",
+                                          "Linux loopback TCP and Unix-domain sockets; epoll semantics as implemented by mio 1.0"],
+    ),
+    "C05": dict(
+        level="fault_enumeration",
+        technique="runtime monitoring with fault injection: enumerated + random command/fault sequences (pause, resume, connect, injected accept errors of six kinds, back-off waits) against a real server; shadow pause/registration state machine compared with the accept loop's idle snapshot on a consistent cut of the hook log; boundary connectability check",
+        level_text="The scenario space is a bounded grammar: listener kind {TCP, UDS} x failpoints {off, on} x every sequence of length 1..4 over {pause, resume, connect, inject EMFILE, inject ECONNABORTED, wait past the back-off} (6216 scenarios, walked completely by the thorough tier, sampled by quick) plus random sequences of length 1..5 over two listeners and all six errno kinds. Accept errors are injected at the listener's accept() through a guarded hook; after every step the accept thread is brought to an idle snapshot and the invariants are evaluated on the log prefix ending there.",
+        level_note="'Once a pause has taken effect' is anchored to the accept thread's own Interest{pause} event. Only the injected errno values are covered; a real EMFILE is not produced. The documented shortening of a back-off by pause+resume is accepted.",
+        design_ref="§5 C05",
+        engine="vh-server",
+        layers={
+            "quick": [L("hooks", "vh-server", "hooks", shards=16, extra={"n": 320}, timeout=900)],
+            "thorough": [L("hooks", "vh-server", "hooks", tier="thorough", shards=16, extra={"n": 3000}, timeout=3000)],
+        },
+        obligations=["obs_quiescent_points", "obs_effective_pauses", "obs_effective_resumes", "obs_idempotent_commands", "obs_nontransient_errors_consumed",
+                     "obs_per_connection_errors_consumed", "obs_backoffs_observed", "obs_backoffs_expired_and_rearmed", "obs_connects_while_paused",
+                     "obs_served_after_resume_or_backoff", "obs_uds_connects", "obs_tcp_connects", "obs_errors_injected_while_paused", "enumerated_scenarios_run"],
+        assumptions=COMMON_ASSUMPTIONS + ["hooks in actix-server (--cfg actix_net_verif) only add event emission, failpoint sleeps between critical sections and probes; the log mutex adds synchronisation the production build does not have (TSan layers therefore run without it)",
+                                          "Linux loopback TCP and Unix-domain sockets; epoll semantics as implemented by mio 1.0"],
+    ),
 }
